@@ -263,7 +263,7 @@ real_t imag(cmplx_t x) {
 
 //-------------------------------------------------------------------------------------------------
 int nextpow2(int m) {
-    if ((m == 0) || (m == 1)) {
+    if (m <= 1) {
         return 0;
     }
 
